@@ -10,7 +10,7 @@ from pytrs import Tract  # noqa: E402
 ID = "C07"
 RULE = (
     "Aliquot chains of length 1..4 with an independently drawn documented spelling per component (symbols, /2 /4, bare 2 4, "
-    "1/2 1/4 with and without spaces, direction words with Half / Quarter / One Half / One Quarter / 1/2 / 1/4, dotted "
+    "a space before the bare digit, 1/2 1/4 with and without spaces, direction words with Half / Quarter / One Half / One Quarter / 1/2 / 1/4, dotted "
     "abbreviations, upper/lower/title case) and joiner per gap (nothing after a digit or glyph, space, double space, "
     "' of ', ' of the ', ' of<newline>', newline) x clean_qq x depth settings, a bare two-letter quarter being used anywhere under "
     "clean_qq and directly after a half under every configuration (chain continuing or not); plus the exhaustive table of bare two-letter "
@@ -239,7 +239,7 @@ def lots_classes(c):
 SUBS = [
     Sub("spellings", oracle, strategy=lambda tier: case(), validate=validate, nontrivial=nontrivial, classes=classes, render=render,
         n={"quick": 2500, "thorough": 30000}, shards={"quick": 8, "thorough": 16},
-        essential=("bare_quarter_after_half_without_clean_qq", "chain_continues_after_bare_quarter", "run_of_bare_quarters", "fam=word", "fam=bare", "fam=slash_sp", "fam=dot", "fam=bareq", "join=''", "join=' of the '", "join=' OF THE '", "join='\\n'", "clean_qq")),
+        essential=("bare_quarter_after_half_without_clean_qq", "chain_continues_after_bare_quarter", "run_of_bare_quarters", "fam=word", "fam=bare", "fam=bare_sp", "fam=slash_sp", "fam=dot", "fam=bareq", "join=''", "join=' of the '", "join=' OF THE '", "join='\\n'", "clean_qq")),
     Sub("with_lots", oracle_lots, strategy=lambda tier: lots_case(), validate=validate, nontrivial=lambda c: bool(_last_lots.get("div")), classes=lots_classes,
         render=lambda c: {"text": aq.render_spelled(c["sc"]) + c["tail"], "config": c["config"]},
         n={"quick": 600, "thorough": 8000}, shards={"quick": 4, "thorough": 16}, essential=("lot_division_reported", "fam=bareq", "clean_qq")),
